@@ -105,6 +105,14 @@ def case_table(run, i):
             getattr(F, filt)(seg)
         except Exception:
             pass
+    # chains of filters applied directly, each on the table the previous one returned (merged runs carry summary cn values,
+    # e.g. the weighted median of unequal cn after ampdel, which the next filter must still treat as levels)
+    for a, b in (("ampdel", "cn"), ("cn", "ampdel"), ("ci", "cn"), ("sem", "ampdel"), ("ci", "ampdel"), ("sem", "cn"))[i % 6: i % 6 + 3]:
+        try:
+            r1 = getattr(F, a)(seg)
+            getattr(F, b)(r1)
+        except Exception:
+            pass
     # through do_call: log2 decides cn there (the cn columns are recomputed), so give log2 a copy-number-like spread
     call_cols = dict((k, cols[k]) for k in keep)
     if variant >= 2:
